@@ -20,7 +20,8 @@ Inductive pform :=
 | PVar (c : col)                      (* whenever there is a host with room id R, with shelf id S [, ... weight W], X is minimized *)
 | PClause                             (* there is a host with room id R, with shelf id S                                      *)
 | PCmp (c : col) (ph : string) (k : Z).   (* X is <ph> k, whenever there is a host ... [whenever there is a shelf ... weight W]  *)
-Record pref := { pf_form : pform; pf_dir : pdir; pf_prio : pprio }.
+(* pf_only: ", where R is one of v1, v2" - the preference speaks of those rooms only ([] = no such clause) *)
+Record pref := { pf_form : pform; pf_dir : pdir; pf_prio : pprio; pf_only : list Z }.
 Record pspec := { p_rooms : nat; p_shelves : list (Z * Z); p_lb : option nat; p_ub : option nat; p_prefs : list pref }.
 
 Definition world (sp : pspec) : aspec :=
@@ -40,8 +41,10 @@ Definition fin (e : ext) : Z := match e with EFin z => z | _ => 0 end.
 Definition uses_weight (f : pform) : bool := match f with PVar KWeight | PCmp KWeight _ _ => true | _ => false end.
 
 (* the stated quantity *)
+Definition restrict (p : pref) (T : list triple) : list triple :=
+  match pf_only p with [] => T | vs => filter (fun t => existsb (Z.eqb (colval KRoom t)) vs) T end.
 Definition quantity (sp : pspec) (I : interp) (p : pref) : Z :=
-  let T := triples (world sp) I in
+  let T := restrict p (triples (world sp) I) in
   match pf_form p with
   | PAggAll f c => fin (agg_value f (map (fun t => [colval c t]) T))
   | PAggPerRoom f => fold_right Z.add 0 (map (fun r => fin (agg_value f (map (fun t => [colval KShelf t]) (filter (fun t => Z.eqb (colval KRoom t) r) T)))) (rooms (world sp)))
@@ -96,7 +99,9 @@ Definition col_var (c : col) : string := match c with KRoom => "R" | KShelf => "
 Definition host_body (with_weight : bool) : list wlit := (WHost "R" "S" :: if with_weight then [WShelf "S" "W"] else [])%list.
 Definition host_tuple (with_weight : bool) : list string := ("R" :: "S" :: if with_weight then ["W"] else [])%list.
 
+(* (sentences with a "where R is one of" clause are not covered by the compile model: they are decided by the oracle against the reading) *)
 Definition compile_pref (p : pref) : option wc :=
+  match pf_only p with _ :: _ => None | [] =>
   match prio_level (pf_prio p), dir_neg (pf_dir p) with
   | Some lvl, Some ng =>
     match pf_form p with
@@ -119,7 +124,7 @@ Definition compile_pref (p : pref) : option wc :=
                      | Some o => Some {| w_body := (WCmp (col_var c) o k :: host_body ww); w_neg := ng; w_weight := WOne; w_level := lvl; w_tuple := host_tuple ww |}
                      | None => None end
     end
-  | _, _ => None end.
+  | _, _ => None end end.
 
 Definition compile_prefs (sp : pspec) : option (list wc) := all_some (map compile_pref (p_prefs sp)).
 
